@@ -63,6 +63,26 @@ Theorem c10_unconditional_convergence_refuted :
 Proof. split; [exact stale_syn_stall_reachable | exact stale_syn_stall]. Qed.
 Print Assumptions c10_unconditional_convergence_refuted.
 
+(* ... and so does a lost SYNACK when the client never transmits again (an application that only receives, no
+   keepalive): reachable with nothing but the loss of that one packet; from there, whatever the timers do and with a
+   perfect transport, the server never completes and both channels stay empty
+   (known finding C10/lost-synack-with-a-silent-client; any DATA or ping of the client completes the server:
+   c10_converge_lost_synack above) *)
+Theorem c10_lost_synack_silent_client_refuted :
+  hrun (hinit 20 [] []) [HStart; HAB HDeliver; HBA HDeliver; HAB HDrop]
+    = Some (mk_hsys (mk_client CDone 20) (mk_server SWaitSynAck 20 false) [] [] [20]) /\
+  forall evs st,
+    Forall (fun e => e <> HClientData) evs ->
+    hrun (mk_hsys (mk_client CDone 20) (mk_server SWaitSynAck 20 false) [] [] [20]) evs = Some st ->
+    cl_phase (h_c st) = CDone /\ h_ab st = [] /\ h_ba st = [] /\
+    (sv_phase (h_s st) = SWaitSynAck \/ sv_phase (h_s st) = SWaitSyn).
+Proof.
+  split; [exact lost_synack_silent_reachable|].
+  intros evs st HF H. eapply lost_synack_silent_stall; [|exact HF|exact H].
+  repeat split; auto.
+Qed.
+Print Assumptions c10_lost_synack_silent_client_refuted.
+
 Example c10_ex_clean : exists st, hrun (hinit 20 [] []) [HStart; HAB HDeliver; HBA HDeliver; HAB HDeliver] = Some st
   /\ cl_phase (h_c st) = CDone /\ sv_phase (h_s st) = SDone /\ sv_n (h_s st) = 20.
 Proof. eexists. vm_compute. repeat split; reflexivity. Qed.
